@@ -1,9 +1,13 @@
 #!/bin/bash
 # usage: muttest.sh <patch.diff> <check id>... : applies a seeded change to /repo, runs the checks, reverts.
+# The evidence files of the checks are saved and restored: evidence/ must describe runs on the unchanged tree.
 P=$1; shift
 cd /repo && git apply "$P" || { echo "patch does not apply"; exit 2; }
 for c in "$@"; do
+  cp /verif/evidence/$c.json /tmp/muttest_evidence_$c.json 2>/dev/null
   cd /verif && ./check $c > /tmp/muttest_$c.out 2> /tmp/muttest_$c.err; rc=$?
+  cp /verif/evidence/$c.json /tmp/muttest_evidence_mut_$c.json 2>/dev/null
+  cp /tmp/muttest_evidence_$c.json /verif/evidence/$c.json 2>/dev/null
   echo "== $c exit=$rc"; grep -h "VIOLATION\|KNOWN" /tmp/muttest_$c.out | head -5; grep -h "^violation" /tmp/muttest_$c.err | head -4
 done
 cd /repo && git checkout -- . && git status --short | head -3
